@@ -244,7 +244,36 @@ func c15BuildTables(k *eng.Check) *c15Tables {
 		} else {
 			nGet++
 		}
-		for _, g := range c.StaticClosure([]*ssa.Function{fn}, inVal, 2) {
+		// the codec functions the accessor itself applies to the field bytes: helpers are followed (depth 2), but
+		// not the inside of a codec function -- what a reader calls internally (readYear -> readUint8) is not a
+		// reader of this encoding
+		var scope []*ssa.Function
+		seenF := map[*ssa.Function]bool{}
+		var visit func(g *ssa.Function, d int)
+		visit = func(g *ssa.Function, d int) {
+			if g == nil || seenF[g] || len(g.Blocks) == 0 {
+				return
+			}
+			if p := eng.FuncPkg(g); p == nil || !inVal(strings.TrimPrefix(strings.TrimPrefix(p.Path(), "github.com/dolthub/dolt/go"), "/")) {
+				return
+			}
+			seenF[g] = true
+			scope = append(scope, g)
+			if d <= 0 {
+				return
+			}
+			for _, a := range g.AnonFuncs {
+				visit(a, d)
+			}
+			for _, call := range eng.Calls(g, func(ssa.CallInstruction) bool { return true }, false) {
+				cal := call.Common().StaticCallee()
+				if cal != nil && c15CodecShape(cal) == "" {
+					visit(cal, d-1)
+				}
+			}
+		}
+		visit(fn, 2)
+		for _, g := range scope {
 			for _, call := range eng.Calls(g, func(ssa.CallInstruction) bool { return true }, false) {
 				cal := call.Common().StaticCallee()
 				sh := c15CodecShape(cal)
